@@ -346,7 +346,7 @@ func c17Conc(cc c17Cell, env *Env) CellResult {
 		return res
 	}
 
-	opt := vsched.Options{PreemptionBound: 2, EnvBound: 0, Deadline: env.Deadline}
+	opt := vsched.Options{PreemptionBound: 2, EnvBound: 0, HBCache: true, Deadline: env.Deadline}
 	if env.Thorough() {
 		opt = vsched.Options{PreemptionBound: -1, EnvBound: 0, HBCache: true, MaxExecs: 500000, Deadline: env.Deadline}
 	}
